@@ -1,6 +1,7 @@
 """C07 — schemas are immutable values and all operations on them are pure."""
 import copy
 
+from ..common import safe_repr
 from .. import encode, gen_chain as GC, gen_value, model, rebuild, runner, scripted_random as SR, sexp, valcases
 from ..common import d42  # noqa: F401
 from ..gen_schema import SchemaGen
@@ -32,11 +33,11 @@ PROBES = [None, 0, 1, "a", "ab", [], [1], {}, {"a": 1}, 1.5, True, b"x"]
 def observe(s):
     """everything a user can see of a schema without a reference to its internals"""
     try:
-        declared = (tuple(s.props), repr(s.props))      # FIRST: the declared properties as `schema.props` lists them
+        declared = (tuple(s.props), safe_repr(s.props))      # FIRST: the declared properties as `schema.props` lists them
     except Exception as e:  # noqa: BLE001
         declared = type(e).__name__
     try:
-        text = repr(s)
+        text = safe_repr(s)
     except Exception as e:  # noqa: BLE001
         text = "repr raised " + type(e).__name__
     verdicts = []
@@ -51,12 +52,12 @@ def observe(s):
     except Exception as e:  # noqa: BLE001
         enc = "unencodable"
     (k, g), _ = SR.generate(s, SR.make_policy("lo", None))
-    gen = repr(g) if k == "ok" else type(g).__name__
+    gen = safe_repr(g) if k == "ok" else type(g).__name__
     return (text, tuple(verdicts), enc, gen, declared)
 
 
 def deep_snapshot(x):
-    return repr(x)
+    return safe_repr(x)
 
 
 class History:
@@ -80,7 +81,7 @@ class History:
             now = observe(s)
             if now != self.obs[i]:
                 self.ctx.violation("an existing schema changed its observable behaviour", step=step, history=self.log[-12:],
-                                   index=i, before=repr(self.obs[i])[:600], after=repr(now)[:600])
+                                   index=i, before=safe_repr(self.obs[i])[:600], after=safe_repr(now)[:600])
                 self.obs[i] = now
 
     def step(self, n):
@@ -215,7 +216,7 @@ class History:
             s = self.pool[i]
             c2 = rebuild.clone(s)
             for f, what in ((lambda x: x | schema.none, "| none"), (lambda x: substitute(x, 1), "% 1"),
-                            (lambda x: repr(x), "repr")):
+                            (lambda x: safe_repr(x), "repr")):
                 try:
                     a = f(s)
                 except Exception as e:  # noqa: BLE001
@@ -227,7 +228,7 @@ class History:
                 same = (a == b) if not hasattr(a, "props") else (observe(a) == observe(b))
                 if not same:
                     self.ctx.violation("repeating an operation on equal inputs gave different results", op=what,
-                                       schema=repr(s), first=repr(a), second=repr(b))
+                                       schema=safe_repr(s), first=safe_repr(a), second=safe_repr(b))
             self.log.append(f"repeat ops on pool[{i}] and on an equal rebuild")
 
 
@@ -259,8 +260,8 @@ def directed_value_purity(ctx):
                 ctx.violation("substitute mutated the value passed in", call=f"{s!r} % {v0!r}", before=before, after=deep_snapshot(v),
                               same_object_twice=bool(shared))
             elif outs[0] != outs[1]:
-                ctx.violation("repeating an operation on equal inputs gave different results", op="%", schema=repr(s), value=before,
-                              first=repr(outs[0])[:300], second=repr(outs[1])[:300])
+                ctx.violation("repeating an operation on equal inputs gave different results", op="%", schema=safe_repr(s), value=before,
+                              first=safe_repr(outs[0])[:300], second=safe_repr(outs[1])[:300])
 
 
 def directed_lookup_purity(ctx):
@@ -293,7 +294,7 @@ def directed_lookup_purity(ctx):
                     pass
                 ctx.count("directed_lookup_purity_cases")
                 if deep_snapshot(v) != before:
-                    ctx.violation("an operation mutated the value passed in", op=name, schema=repr(s), before=before, after=deep_snapshot(v))
+                    ctx.violation("an operation mutated the value passed in", op=name, schema=safe_repr(s), before=before, after=deep_snapshot(v))
 
 
 def directed_path_purity(ctx):
@@ -308,25 +309,25 @@ def directed_path_purity(ctx):
     for s in schemas:
         for v in values:
             p = PathHolder("body")
-            before = repr(p)
+            before = safe_repr(p)
             runs = []
             for _ in range(2):
                 try:
-                    runs.append(sorted(repr(e.path) for e in validate(s, v, path=p).get_errors()))
+                    runs.append(sorted(safe_repr(e.path) for e in validate(s, v, path=p).get_errors()))
                 except Exception as e:  # noqa: BLE001
                     runs.append(type(e).__name__)
             ctx.count("directed_path_purity_cases")
-            if repr(p) != before:
-                ctx.violation("validate mutated the path holder passed in", schema=repr(s), value=repr(v), before=before, after=repr(p))
+            if safe_repr(p) != before:
+                ctx.violation("validate mutated the path holder passed in", schema=safe_repr(s), value=safe_repr(v), before=before, after=safe_repr(p))
             elif runs[0] != runs[1]:
-                ctx.violation("repeating an operation on equal inputs gave different results", op="validate(path=...)", schema=repr(s),
-                              value=repr(v), first=runs[0][:4], second=runs[1][:4])
+                ctx.violation("repeating an operation on equal inputs gave different results", op="validate(path=...)", schema=safe_repr(s),
+                              value=safe_repr(v), first=runs[0][:4], second=runs[1][:4])
             # without a caller path: every error path of a failing union starts where the union sits
             try:
                 for e in validate(schema.dict({"u": s}), {"u": v}).get_errors():
-                    if not repr(e.path).startswith("PathHolder()['u']"):
-                        ctx.violation("an error path does not start at the position being validated", schema=repr(s), value=repr(v),
-                                      path=repr(e.path))
+                    if not safe_repr(e.path).startswith("PathHolder()['u']"):
+                        ctx.violation("an error path does not start at the position being validated", schema=safe_repr(s), value=safe_repr(v),
+                                      path=safe_repr(e.path))
                         break
             except Exception:  # noqa: BLE001
                 pass
@@ -355,7 +356,7 @@ def directed_scale_purity(ctx):
            ("+ wide", lambda s: s + wide_dict()), ("% partial", lambda s: substitute(s, {"k01": 5, "k02": "x"})),
            ("% list", lambda s: substitute(s, [("s" if i % 2 == 0 else i) for i in range(20)])), ("% 3", lambda s: substitute(s, 3)),
            ("| none", lambda s: s | schema.none), ("| self", lambda s: s | s), ("getitem", lambda s: s["k03"]), ("iterate", lambda s: list(s)),
-           ("repr", lambda s: repr(s)), ("validate", lambda s: validate(s, {"k01": 1})), ("fake", lambda s: SR.generate(s, SR.make_policy("lo", ctx.rnd))),
+           ("repr", lambda s: safe_repr(s)), ("validate", lambda s: validate(s, {"k01": 1})), ("fake", lambda s: SR.generate(s, SR.make_policy("lo", ctx.rnd))),
            ("% deep", lambda s: substitute(s, [None, {"d": [None, {"d": [None, {"d": 1}]}]}]))]
     for mk in makers:
         for name, op in ops:
@@ -369,7 +370,7 @@ def directed_scale_purity(ctx):
             ctx.count("directed_scale_purity_cases")
             if observe(s) != before:
                 ctx.violation("an existing schema changed its observable behaviour", step=name, history=[mk.__name__, name],
-                              before=repr(before)[:500], after=repr(observe(s))[:500])
+                              before=safe_repr(before)[:500], after=safe_repr(observe(s))[:500])
             elif observe(twin) != before:
                 ctx.violation("an independently built equal schema changed its observable behaviour", step=name, maker=mk.__name__)
 
@@ -403,7 +404,7 @@ def order_independence(ctx):
     for kind, v in ops:
         try:
             res = from_native(copy.deepcopy(v)) if kind == "from_native" else substitute(getattr(schema, kind), copy.deepcopy(v))
-            here.append(repr(res))
+            here.append(safe_repr(res))
         except Exception as e:  # noqa: BLE001
             here.append("EXC:" + type(e).__name__)
     from ..common import REPO, VERIF
@@ -466,7 +467,7 @@ def directed_aliasing(ctx):
                 after = observe(s)
                 if after != before:
                     ctx.violation("later mutation of a container that was passed in changed the schema built from it",
-                                  how=name, container_after=repr(c)[:200], before=repr(before)[:400], after=repr(after)[:400])
+                                  how=name, container_after=safe_repr(c)[:200], before=safe_repr(before)[:400], after=safe_repr(after)[:400])
 
 
 def directed_option_purity(ctx):
@@ -491,11 +492,11 @@ def directed_option_purity(ctx):
                 want = represent(mk(), indent=ind)
                 if got != want:
                     ctx.violation("represent(schema, indent=%d) answers differently after the same schema was rendered with other "
-                                  "options" % ind, schema=want, got=got, order=repr(order))
+                                  "options" % ind, schema=want, got=got, order=safe_repr(order))
                     break
-            if repr(s) != repr(fresh) or represent(s) != represent(fresh):
-                ctx.violation("repr of a schema changed after it was rendered with options", schema=repr(fresh), got=repr(s),
-                              order=repr(order))
+            if safe_repr(s) != safe_repr(fresh) or represent(s) != represent(fresh):
+                ctx.violation("repr of a schema changed after it was rendered with options", schema=safe_repr(fresh), got=safe_repr(s),
+                              order=safe_repr(order))
             try:
                 schema_err = None
                 s.len("x") if hasattr(s, "len") else s.min("x")
@@ -515,12 +516,12 @@ def directed_option_purity(ctx):
         except Exception:  # noqa: BLE001
             continue
         for v in (None, {"a": ["x"], "b": {"c": 1}}, [1, 2], "b"):
-            base = [repr(e) for e in validate(mk(), v).get_errors()]
+            base = [safe_repr(e) for e in validate(mk(), v).get_errors()]
             validate(s, v, path=PathHolder("body")["k"])
-            again = [repr(e) for e in validate(s, v).get_errors()]
+            again = [safe_repr(e) for e in validate(s, v).get_errors()]
             if again != base:
                 ctx.violation("validate(schema, value) answers differently after a call with a caller-supplied path",
-                              schema=repr(mk()), value=repr(v), first=base[:3], second=again[:3])
+                              schema=safe_repr(mk()), value=safe_repr(v), first=base[:3], second=again[:3])
 
 
 def directed_fault_then_repeat(ctx):
@@ -533,7 +534,7 @@ def directed_fault_then_repeat(ctx):
     from d42.utils import from_native, make_required
 
     def obs(r):
-        return observe(r) if hasattr(r, "props") else repr(r)
+        return observe(r) if hasattr(r, "props") else safe_repr(r)
     containers = [
         (lambda: {"a": [1, 2], "b": {"c": 1}}, lambda c: c["a"], "list"),
         (lambda: {"a": [1, 2], "b": {"c": 1}}, lambda c: c["b"], "dict"),
@@ -552,7 +553,7 @@ def directed_fault_then_repeat(ctx):
         ("schema.any(schema.list, schema.dict) % c", lambda c: schema.any(schema.list, schema.dict) % c),
         ("schema.dict({...: ...}) % c", lambda c: schema.dict({...: ...}) % c),
         ("schema.list([...]) % c", lambda c: schema.list([...]) % c),
-        ("validate(from-any, c)", lambda c: [repr(e) for e in validate(schema.any(schema.list(schema.any), schema.dict), c).get_errors()]),
+        ("validate(from-any, c)", lambda c: [safe_repr(e) for e in validate(schema.any(schema.list(schema.any), schema.dict), c).get_errors()]),
         ("schema == c", lambda c: schema.any(schema.list, schema.dict) == c),
     ]
     for opname, op in ops:
@@ -579,7 +580,7 @@ def directed_fault_then_repeat(ctx):
                     continue
                 if d is not None:
                     ctx.violation("repeating an operation on the same (repaired) input after a failed attempt gives another "
-                                  "result", operation=opname, container=repr(mk()), **d)
+                                  "result", operation=opname, container=safe_repr(mk()), **d)
     # declarations given a caller-owned container of schemas that is temporarily broken
     decls = [
         ("schema.list(c)", lambda: [schema.int, schema.str], lambda c: c.append("junk"), lambda c: c.pop(), lambda c: schema.list(c)),
@@ -600,7 +601,7 @@ def directed_fault_then_repeat(ctx):
             continue
         if d is not None:
             ctx.violation("repeating an operation on the same (repaired) input after a failed attempt gives another result",
-                          operation=name, container=repr(mk()), **d)
+                          operation=name, container=safe_repr(mk()), **d)
 
 
 def model_history(ctx, rnd, n):
